@@ -302,12 +302,13 @@ func c06(c *ctx) error {
 				g := &crashstore.Group{CrashAt: k, Landed: landed == 1}
 				id := newID
 				_ = run(wrap(base, g), id)
-				kinds := make([]string, len(g.Writes))
+				writes := g.Snapshot()
+				kinds := make([]string, len(writes))
 				known := newID
 				if op == "commit" {
 					known = ""
 				}
-				for j, wr := range g.Writes {
+				for j, wr := range writes {
 					kinds[j] = c06Kind(wr, known)
 				}
 				c.w.Op(fmt.Sprintf("crash seq=%s k=%d landed=%d", strings.Join(kinds, ","), k, landed), c06Observe(w, base, newTree, perFile))
@@ -338,8 +339,9 @@ func c06(c *ctx) error {
 				base := c06Clone(w.env)
 				g := &crashstore.Group{FailOnceAt: k}
 				rerr := run(wrap(base, g), newID)
-				kinds := make([]string, len(g.Writes))
-				for j, wr := range g.Writes {
+				writes := g.Snapshot()
+				kinds := make([]string, len(writes))
+				for j, wr := range writes {
 					kinds[j] = c06Kind(wr, newID)
 				}
 				res := "ok"
